@@ -2,7 +2,7 @@
    signature so that a single small OCaml driver (or a generated cases.v) can run
    them:  dispatch id scalars coords indices : option (list Q). *)
 From Coq Require Import List ZArith QArith Bool.
-Require Import Cox.Num.Ops Cox.Geo.Vec Cox.Model.Mesh.
+Require Import Cox.Num.Ops Cox.Geo.Vec Cox.Model.Mesh Cox.Model.Polygon.
 Import ListNotations.
 
 Fixpoint group3 (l : list Q) : list (vec3 Q) :=
@@ -71,6 +71,29 @@ Section Entries.
   Definition e_fans (idx : list (list nat)) : list Q :=
     flat_map (fun t => [z2q (Z.of_nat (fst (fst t))); z2q (Z.of_nat (snd (fst t))); z2q (Z.of_nat (snd t))])
              (fans idx).
+
+  (* 10: polygon in 3-space. sc = [has_normal; nx; ny; nz; useabs] *)
+  Definition qtrue (q : Q) : bool := negb (Qeq_bool q 0).
+  Definition e_polygon (sc qs : list Q) : list Q :=
+    let V := group3 qs in
+    let N := if qtrue (nth 0 sc 0) then (nth 1 sc 0, nth 2 sc 0, nth 3 sc 0) else pnormal O V in
+    let useabs := qtrue (nth 4 sc 0) in
+    let cc := pcentroid_code O useabs N V in
+    let cs := pcentroid_spec O N V in
+    [vdot O N N; sa_coef O N V; sa_spec_coef O N V] ++ v3l cc ++ v3l cs
+      ++ [polar_coef O N cc V; polar_coef O N cs V] ++ v3l N ++ edge_n2 O V.
+
+  (* 11: polygon in the xy-plane (+z normal): planar moments, code as found / repaired / spec *)
+  Definition e_polygon_planar (qs : list Q) : list Q :=
+    let V := group3 qs in
+    planar_moments O true V ++ planar_moments O false V ++ planar_moments_spec O V ++ [Sa O V].
+
+  (* 12: Polyhedron faces: per face [(-d)A term; |sa_coef|; N.N] *)
+  Definition e_poly_faces (qs : list Q) (idx : list (list nat)) : list Q :=
+    let V := group3 qs in
+    flat_map (fun f => let F := map (getv O V) f in
+                       let ap := face_area_parts O F in
+                       [face_vol_term O F; fst ap; snd ap]) idx.
 End Entries.
 
 Definition dispatch (f : nat) (sc qs : list Q) (idx : list (list nat)) : option (list Q) :=
@@ -80,5 +103,8 @@ Definition dispatch (f : nat) (sc qs : list Q) (idx : list (list nat)) : option 
   | 3 => Some (e_face_centroid qs idx)
   | 4 => Some (e_poly_code sc qs idx)
   | 5 => Some (e_fans idx)
+  | 10 => Some (e_polygon sc qs)
+  | 11 => Some (e_polygon_planar qs)
+  | 12 => Some (e_poly_faces qs idx)
   | _ => None
   end%nat.
